@@ -144,10 +144,29 @@ Definition window_stale_request (pre : ostate) (st : ostep) : bool :=
   | _ => false
   end.
 
+(* a release with an EMPTY allocation key and termination type PLACEHOLDER_REPLACED: removeAllocation treats every
+   placeholder of the application that has a replacement in flight as confirmed and announces the real allocation,
+   although the same request releases every ask of the application (finding C04-release-all-replaced) *)
+Definition window_release_all_replaced (pre : ostate) (st : ostep) : bool :=
+  match st_op st with
+  | OpRelease app key ty =>
+      (key =? 0) && (ty =? 4) &&
+      match find_app pre app with
+      | Some a =>
+          forallb (fun e => match e with
+                            | ENewAlloc k ap _ _ _ =>
+                                (ap =? app) && existsb (fun p => oa_ph p && (oa_release p =? k)) (ap_allocs a)
+                            | _ => true end) (st_events st)
+      | None => false
+      end
+  | _ => false
+  end.
+
 Definition classify (pre : ostate) (st : ostep) (taint : bool) (c : N) : N :=
   if (c =? 411) && window_stale_request pre st then 456 else
   if ((c =? 401) || (c =? 402)) && window_13 pre st then 450 else
   if ((c =? 401) || (c =? 495)) && window_dangling_swap pre st then 454 else
+  if ((c =? 401) || (c =? 402) || (c =? 495)) && window_release_all_replaced pre st then 457 else
   if taint && taint_kind c then 455 else c.
 
 Fixpoint c04_steps (base i : N) (pre : ostate) (m : option mstate) (lost0 : list N) (taint0 : bool) (l : list ostep) : list (N * N) :=
